@@ -706,6 +706,70 @@ def tr_get_binsize(tree):
         "Definition get_binsize_source_pins : bool := true."])
 
 
+def tr_parse_region(tree):
+    """util.parse_region after the region became a triple: the defaults for an open start / end, `End cannot be less than
+    start`, `Genomic region out of bounds`.  The two refusal conditions are translated from the expressions the source has
+    now (`clen is not None and X` becomes a match on the optional length); everything around them is pinned."""
+    f = find(tree, "parse_region")
+    st = strip_doc(f.body)
+    if len(st) != 7:
+        raise Unsupported("parse_region: statement count")
+    pin(st[0], """
+        if isinstance(reg, str):
+            chrom, start, end = parse_region_string(reg)
+        else:
+            chrom, start, end = reg
+            start = int(start) if start is not None else start
+            end = int(end) if end is not None else end
+    """)
+    pin(st[1], """
+        try:
+            clen = chromsizes[chrom] if chromsizes is not None else None
+        except KeyError as e:
+            raise ValueError(f"Unknown sequence label: {chrom}") from e
+    """)
+    pin(st[2], "start = 0 if start is None else start")
+    d = st[3]
+    if not (isinstance(d, ast.If) and ast.unparse(d.test) == "end is None" and not d.orelse and len(d.body) == 2
+            and isinstance(d.body[0], ast.If) and ast.unparse(d.body[0].test) == "clen is None" and not d.body[0].orelse
+            and len(d.body[0].body) == 1 and isinstance(d.body[0].body[0], ast.Raise)):
+        raise Unsupported("parse_region: default of an open end")
+    pin(d.body[1], "end = clen")
+    for k in (4, 5):
+        if not (isinstance(st[k], ast.If) and not st[k].orelse and len(st[k].body) == 1 and isinstance(st[k].body[0], ast.Raise)):
+            raise Unsupported("parse_region: refusal statement shape")
+    pin(st[6], "return chrom, start, end")
+    fn = Fn(names={"end": "end_"}, may_raise=False)
+    lt = fn.expr(st[4].test)
+    t = st[5].test
+    if not (isinstance(t, ast.BoolOp) and isinstance(t.op, ast.Or)):
+        raise Unsupported("parse_region: bounds test is not a disjunction")
+    parts = []
+    for v in t.values:
+        if (isinstance(v, ast.BoolOp) and isinstance(v.op, ast.And) and ast.unparse(v.values[0]) == "clen is not None"
+                and len(v.values) == 2):
+            parts.append(f"match clen with Some clen => {fn.expr(v.values[1])} | None => false end")
+        elif "clen" in ast.unparse(v):
+            raise Unsupported("parse_region: clen used outside the `is not None` guard")
+        else:
+            parts.append(fn.expr(v))
+    oob = "(" + " || ".join(parts) + ")"
+    return "\n".join([
+        f"Definition pr_end_before_start (start end_ : Z) : bool := {lt}.",
+        f"Definition pr_out_of_bounds (start end_ : Z) (clen : option Z) : bool := {oob}.",
+        "(* start / end as given (None = open), clen = chromsizes[chrom] (None = no chromsizes given); None = ValueError *)",
+        "Definition parse_region_tail (start end_ clen : option Z) : option (Z * Z) :=",
+        "  let start := match start with None => 0 | Some v => v end in",
+        "  match (match end_ with None => clen | Some v => Some v end) with",
+        "  | None => None",
+        "  | Some end_ =>",
+        "      if pr_end_before_start start end_ then None",
+        "      else if pr_out_of_bounds start end_ clen then None",
+        "      else Some (start, end_)",
+        "  end.",
+        "Definition parse_region_source_pins : bool := true."])
+
+
 ITEMS = [
     ("core/_rangequery.py", "comes_before", lambda t: tr_cmp(t, "_comes_before", "comes_before")),
     ("core/_rangequery.py", "contains", lambda t: tr_cmp(t, "_contains", "contains")),
@@ -725,6 +789,7 @@ ITEMS = [
     ("util.py", "float_division_pins_binnify", tr_float_division_pins("binnify")),
     ("_reduce.py", "float_division_pins_coarsen", tr_float_division_pins("coarsen")),
     ("util.py", "get_binsize", tr_get_binsize),
+    ("util.py", "parse_region_tail", tr_parse_region),
 ]
 
 
